@@ -172,6 +172,16 @@ def main(argv=None):
             watchdog = True
             break
         time.sleep(0.05)
+    if watchdog:
+        # workers run with -X faulthandler: SIGABRT makes a stuck worker write the stacks of all its threads to its log,
+        # the tail of which goes into the INCONCLUSIVE line
+        for p in procs:
+            if p.poll() is None:
+                try:
+                    os.kill(p.pid, signal.SIGABRT)
+                except OSError:
+                    pass
+        time.sleep(1.5)
     kill_run(run_id, procs)
     for p in procs:
         try:
@@ -190,7 +200,7 @@ def main(argv=None):
             tail = b""
             try:
                 with open(os.path.join(scratch, "w%d.log" % s), "rb") as f:
-                    tail = f.read()[-1500:]
+                    tail = f.read()[-3000:]
             except OSError:
                 pass
             incon.append("shard %d produced no result (%s): %s" % (
